@@ -150,6 +150,8 @@ structure QInv (os : List Owner) : Prop where
   nodup : (os.map (·.conn)).Nodup
   tail_queueable : ∀ o ∈ os.tail, o.noQueue = false
 
+theorem qinv_nil : QInv [] := ⟨List.nodup_nil, by simp⟩
+
 def QueueJump (os : List Owner) (c : Nat) (flags : Nat) : Prop :=
   ∃ p rest, os = p :: rest ∧ p.conn ≠ c ∧ flagReplace flags = true ∧ flagNoQueue flags = false ∧
     p.allowRepl = false
